@@ -195,6 +195,8 @@ func checkC05(c *Check) {
 	checkC05Typestate(c, L)
 	checkC05CapacityTruth(c, L)
 	checkC05ListLiterals(c, L)
+	checkC05FieldOfTemporary(c, L)
+	checkC05SelfAssignment(c, L)
 	checkC05C(c, L)
 }
 
@@ -608,6 +610,13 @@ func analyseLedger(in *Interp, cobj *Obj, temps map[string]bool, opt ...func(*IR
 		} else if isTemp && !ledger[ret] {
 			bad = append(bad, "the visitor reports its non-primitive result as a temporary, but the result is not registered in the scope's temporaries: a consumer that claims it makes the compiler panic, and nothing releases it otherwise")
 		} else if !isTemp {
+			// a non-temporary result must not point into a temporary operand: the temporary is released when its scope ends
+			// (the end of a falls branch, of a loop iteration, of the statement) while the consumer may read the result later
+			for _, cpt := range irComponents(ret) {
+				if b := baseOperand(cpt); b != nil && b != ret && temps[operand[b]] && ledger[b] {
+					bad = append(bad, "the visitor returns, as a non-temporary, a pointer into its temporary operand "+operand[b]+" (which stays registered and is released with its scope): the result dangles as soon as that scope ends - e.g. a field of a temporary Kombination taken inside a falls branch")
+				}
+			}
 			for _, cpt := range irComponents(ret) {
 				if how, own := owning[cpt]; own && !ledger[cpt] && !ledger[ret] && !handed[cpt] {
 					bad = append(bad, "the visitor returns a freshly created value ("+how+") as a non-temporary without registering it: the consumer copies it and nothing releases the original")
@@ -1278,5 +1287,130 @@ func checkC05ListLiterals(c *Check, L *Loaded) {
 				}
 			}
 		}
+	}
+}
+
+// R5.14: a non-primitive field taken from a Kombination. From a variable the field is lent (a pointer into the variable,
+// not a temporary); from a TEMPORARY Kombination it must be moved out (the result is a registered temporary of its own and
+// the field is reset), because the temporary Kombination is released with its scope - possibly before the field is used.
+func checkC05FieldOfTemporary(c *Check, L *Loaded) {
+	r := c.Rule("R5.14", "a non-primitive field of a temporary Kombination is moved out of it, not lent", 2)
+	fi := L.Fn("src/compiler.(*compiler).VisitBinaryExpr")
+	if fi == nil {
+		r.Und("compiler.(*compiler).VisitBinaryExpr", token.NoPos, "function not found")
+		return
+	}
+	var op Val
+	for _, o := range operatorConsts(L, "BinaryOperator") {
+		if o.Name == "BIN_FIELD_ACCESS" {
+			op = opVal(o)
+		}
+	}
+	if op == nil {
+		r.Und("ast.BIN_FIELD_ACCESS", token.NoPos, "operator constant not found")
+		return
+	}
+	for _, temp := range []bool{false, true} {
+		in, mk := newGeneratorInterp(L)
+		in.Models["compiler.getFieldIndex"] = func(in *Interp, pkg *packages.Package, call *ast.CallExpr, recv Val, args []Val) (Val, bool) {
+			return ConstV{V: constant.MakeInt64(0), T: types.Typ[types.Int]}, true
+		}
+		key := fmt.Sprintf("compiler.(*compiler).VisitBinaryExpr|Text field of a Kombination, operand temporary=%v", temp)
+		var bad []string
+		runs := 0
+		in.RunAll(32, func() {
+			cobj := mk()
+			n := newObj("ast.BinaryExpr")
+			n.set("Operator", op)
+			n.set("OverloadedBy", NilV{})
+			fld := newObj("ast.Ident")
+			ft := newObj("token.Token")
+			ft.set("Literal", StrV("name"))
+			fld.set("Literal", ft)
+			fld.set("tok", ft)
+			n.set("Lhs", fld)
+			rhs := exprNode("rhs", &DT{Kind: "STRUCT", Name: "Punkt"})
+			rhs.set("gen", &GenT{Kind: "struct", Name: "Punkt", Fields: []*GenT{{Kind: "string"}, {Kind: "int"}}})
+			rhs.set("temp", boolV(temp))
+			n.set("Rhs", rhs)
+			in.CallFunc(fi, cobj, []Val{n})
+			for _, e := range in.Events {
+				if e.Kind == "cerr" || e.Kind == "panic" {
+					bad = append(bad, e.Kind+": "+e.Msg)
+					return
+				}
+			}
+			runs++
+			bad = append(bad, analyseLedger(in, cobj, map[string]bool{"rhs": temp})...)
+		})
+		if runs == 0 && len(bad) == 0 {
+			r.Und(key, fi.Decl.Pos(), "not evaluated")
+			continue
+		}
+		r.Decide(len(bad) == 0, key, fi.Decl.Pos(), fmt.Sprintf("%d evaluation(s): ledger consistent", runs), strings.Join(uniq(bad), "; "))
+	}
+}
+
+// R5.15: assignment of a value that is (part of) the old value of its target. `Speichere x in x.` (or a field/element of x
+// into x) evaluates the right-hand side to storage of x itself; the statement must take its copy BEFORE it releases the old
+// value of the target. Decided on the event order of VisitAssignStmt evaluated with a non-temporary right-hand side: a
+// release of the target that precedes the deep copy from a non-temporary operand means the copy reads released blocks
+// whenever that operand is the target's own storage.
+func checkC05SelfAssignment(c *Check, L *Loaded) {
+	r := c.Rule("R5.15", "an assignment copies a non-temporary value before it releases the target's old value", 1)
+	fi := L.Fn("src/compiler.(*compiler).VisitAssignStmt")
+	if fi == nil {
+		r.Und("compiler.(*compiler).VisitAssignStmt", token.NoPos, "function not found")
+		return
+	}
+	in, mk := newGeneratorInterp(L)
+	d := &DT{Kind: "TEXT"}
+	releaseFirst, copied, runs := false, false, 0
+	in.RunAll(32, func() {
+		cobj := mk()
+		n := newObj("ast.AssignStmt")
+		rhs := exprNode("Rhs", d)
+		rhs.set("temp", boolV(false))
+		n.set("Rhs", rhs)
+		decl := newObj("ast.VarDecl")
+		decl.set("Type", TypeV{d})
+		id := newObj("ast.Ident")
+		id.set("Declaration", decl)
+		n.set("Var", id)
+		n.set("VarType", TypeV{d})
+		n.set("RhsType", TypeV{d})
+		in.CallFunc(fi, cobj, []Val{n})
+		for _, e := range in.Events {
+			if e.Kind == "cerr" || e.Kind == "panic" {
+				return
+			}
+		}
+		runs++
+		var operand *IRVal
+		released := false
+		for _, e := range in.Events {
+			switch {
+			case e.Kind == "evaluate:Rhs":
+				operand, _ = e.Data[1].(*IRVal)
+			case e.Kind == "call" && strings.HasSuffix(e.Msg, ".FreeFunc"):
+				if v, ok := e.Data[1].(*IRVal); ok && v.Op == "operand" && v.Src == "var" {
+					released = true
+				}
+			case e.Kind == "deepCopy":
+				if src, ok := e.Data[1].(*IRVal); ok && operand != nil && baseOperand(src) == operand {
+					copied = true
+					if released {
+						releaseFirst = true
+					}
+				}
+			}
+		}
+	})
+	key := "compiler.(*compiler).VisitAssignStmt|copy of a non-temporary value vs. release of the target"
+	switch {
+	case runs == 0 || !copied:
+		r.Und(key, fi.Decl.Pos(), "the deep copy of the non-temporary right-hand side was not observed")
+	default:
+		r.Decide(!releaseFirst, key, fi.Decl.Pos(), "the value is copied before the target's old value is released", "the target's old value is released before the non-temporary right-hand side is copied: when the right-hand side is the target itself or a part of it (`Speichere x in x.`), the copy reads released blocks (use after free)")
 	}
 }
